@@ -15,6 +15,8 @@ import time
 from ir import VERIF, REPO, AnalysisBroken
 
 KNOWN = os.path.join(VERIF, 'known_findings.txt')
+# scratch runs (self-tests against a patched copy of the repository) redirect their evidence
+EVID = os.environ.get('AMGCL_SA_EVIDENCE', os.path.join(VERIF, 'evidence'))
 
 
 def load_known():
@@ -99,9 +101,9 @@ class Check:
                 kf.append((o, known[kk]))
             else:
                 viol.append(o)
-        os.makedirs(os.path.join(VERIF, 'evidence', 'replay'), exist_ok=True)
+        os.makedirs(os.path.join(EVID, 'replay'), exist_ok=True)
         # remove stale replay files of this property
-        rdir = os.path.join(VERIF, 'evidence', 'replay')
+        rdir = os.path.join(EVID, 'replay')
         for fn in os.listdir(rdir):
             if fn.startswith(self.pid + '-'):
                 os.unlink(os.path.join(rdir, fn))
@@ -148,7 +150,7 @@ class Check:
             assumptions=self.assumptions,
             wall_s=round(time.time() - self.t0, 2),
             violations=len(viol))
-        with open(os.path.join(VERIF, 'evidence', self.pid + '.json'), 'w') as f:
+        with open(os.path.join(EVID, self.pid + '.json'), 'w') as f:
             json.dump(ev, f, indent=1)
         print('%s [%s] units=%d obligations=%d discharged=%d known=%d violations=%d wall=%.1fs' % (
             self.pid, self.tier, len(self.units), len(obs), len(obs) - len(failed), len(kf), len(viol), time.time() - self.t0))
